@@ -13,7 +13,8 @@ theorem opened_queues_connect_first (e : Engine) (deadline : Nat) (h : e.state =
     (e.handleOpened deadline).2 = .ok ∧ e'.state = .pendingConnack ∧ e'.highQ = e.nextOpId :: e.highQ ∧
     (e'.op? e.nextOpId).map (·.packet) = some e.createConnect ∧ e'.connackDeadline = some deadline ∧
     e'.current = none ∧ e'.pendingWrite = false := by
-  simp [Engine.handleOpened, h, Engine.createOp, Engine.enqueue, Engine.op?, lookup_mapInsert_self, Engine.createConnect]
+  simp [Engine.handleOpened, h, Engine.createOp, Engine.enqueue, Engine.op?, lookup_mapInsert_self]
+  rfl
 
 /-- a second "connection opened" without a close in between is an internal error and halts the engine -/
 theorem opened_twice_is_error (e : Engine) (deadline : Nat) (h : e.state ≠ .disconnected) :
@@ -32,14 +33,64 @@ theorem connect_reflects_options (o : ConnectOpts) (prev : Bool) :
   simp only [ConnectOpts.toPacket]
   cases o.rejoin <;> simp
 
+/-- the CONNECT the engine builds is the options' CONNECT with the client id completed; only the clean-start bit may be raised -/
+theorem createConnect_shape (e : Engine) :
+    ∃ c, e.createConnect = .connect c ∧ c.clientId = e.createConnectBase.clientId ∧
+      (c = e.createConnectBase ∨ c = { e.createConnectBase with cleanStart := true }) := by
+  unfold Engine.createConnect
+  simp only []
+  split
+  · exact ⟨_, rfl, rfl, Or.inr rfl⟩
+  · exact ⟨_, rfl, rfl, Or.inl rfl⟩
+
 /-- **A server-assigned client id is reused** on later connections when the user configured none. -/
 theorem assigned_client_id_reused (e : Engine) (s : Settings) (hs : e.settings = some s) (hc : e.cfg.connect.clientId = none) :
     ∃ c, e.createConnect = .connect c ∧ c.clientId = some s.clientId := by
-  simp [Engine.createConnect, ConnectOpts.toPacket, hc, hs]
+  obtain ⟨c, h1, h2, _⟩ := createConnect_shape e
+  refine ⟨c, h1, ?_⟩
+  rw [h2]
+  simp [Engine.createConnectBase, ConnectOpts.toPacket, hc, hs]
 
 theorem configured_client_id_kept (e : Engine) (cid : Bytes) (hc : e.cfg.connect.clientId = some cid) :
     ∃ c, e.createConnect = .connect c ∧ c.clientId = some cid := by
-  simp [Engine.createConnect, ConnectOpts.toPacket, hc]
+  obtain ⟨c, h1, h2, _⟩ := createConnect_shape e
+  refine ⟨c, h1, ?_⟩
+  rw [h2]
+  simp [Engine.createConnectBase, ConnectOpts.toPacket, hc]
+
+/-- **Clean start is chosen by the rejoin policy and the connection history** - except that a 3.1.1 CONNECT with a
+    zero-byte client identifier always asks for a clean session ([MQTT-3.1.3-7]; there is no session a server could resume
+    for a client it has to name itself). -/
+theorem clean_start_by_policy (e : Engine) :
+    ∃ c, e.createConnect = .connect c ∧
+      c.cleanStart = ((e.cfg.version == .v311 && (c.clientId.getD []).isEmpty) ||
+        (match e.cfg.connect.rejoin with | .postSuccess => !e.hasConnected | .always => false | .never => true)) := by
+  have hb : e.createConnectBase.cleanStart =
+      (match e.cfg.connect.rejoin with | .postSuccess => !e.hasConnected | .always => false | .never => true) := by
+    unfold Engine.createConnectBase
+    simp only []
+    split <;> simp only [ConnectOpts.toPacket] <;> cases e.cfg.connect.rejoin <;> rfl
+  unfold Engine.createConnect
+  simp only []
+  split
+  · rename_i h
+    exact ⟨_, rfl, by simp only [h]; rfl⟩
+  · rename_i h
+    refine ⟨_, rfl, ?_⟩
+    rw [hb]
+    cases hx : (e.cfg.version == .v311 && (e.createConnectBase.clientId.getD []).isEmpty)
+    · rfl
+    · exact absurd hx h
+
+/-- **A 3.1.1 CONNECT never pairs a zero-byte client identifier with CleanSession = 0** (what a conformant server must
+    refuse with return code 2) -/
+theorem connect311_empty_client_id_is_clean (e : Engine) (c : Connect) (hv : e.cfg.version = .v311)
+    (hc : e.createConnect = .connect c) (hcid : c.clientId.getD [] = []) : c.cleanStart = true := by
+  obtain ⟨c', h1, h2⟩ := clean_start_by_policy e
+  rw [hc] at h1
+  cases h1
+  rw [h2, hv, hcid]
+  rfl
 
 /-- **Nothing but the high-priority queue is served before CONNACK**: in the handshake the queue service never
     takes from the user or resubmit queue. -/
